@@ -50,6 +50,7 @@ BASES = {
            ["mkdir", "e"], ["mkdir", "e/f"], ["create", "e/f/g", "3"], ["create", "h", "4"]],
     "B3": [["create", "a", "1"], ["create", "b", "2"]],
     "B4": [["create", "a", "1"], ["mkdir", "d"], ["create", "d/b", "2"], ["mkdir", "m"]],
+    "B5": [["mkdir", "m"], ["create", "a", "1"], ["mkdir", "d"], ["create", "d/b", "2"]],      # (empty folder walked first)
 }
 
 ENGINE = ("IL", "IR", "S")
